@@ -239,8 +239,8 @@ class FailureAndRepair(object):
     case_timeout = 10
     name = 'failure-plus-second-deviation'
     describe = ('quick-tier slice of the pair space: a failure on one module (absent, reader error, syntax error, symbol-table, code '
-                'generation, writer error) combined with a borrower answer, a second failure, a fresh searcher answer or a writer '
-                'error on either module; A imports B; all requests; all 64 option vectors')
+                'generation, writer error) combined with a borrower answer (and the writer then failing on the borrowed module), a second '
+                'failure, a fresh searcher answer or a writer error on either module; A imports B; all requests; all 64 option vectors')
 
     def blocks(self, tier):
         fails = [{'src': {'%s0': 'notfound'}}, {'src': {'%s0': 'error'}}, {'text': {'%s': 'synerr'}}, {'symerr': ['%s']},
@@ -296,6 +296,17 @@ class FailureAndRepair(object):
                             for req in requests(2):
                                 for o in option_vectors(False):
                                     yield make_world(2, [['A', 'B']], req, dev3, o)
+                # three deviations: the failure, a borrower that has the module, and the writer failing on that very module
+                for ans in sec['borrowers']:
+                    for m2, a in ans.get('ans', {}).items():
+                        if a != 'has':
+                            continue
+                        dev3 = merge(dev, {'wrerr': [m2]})
+                        if dev3 is None or dev3 == dev:
+                            continue
+                        for req in requests(2):
+                            for o in option_vectors(False):
+                                yield make_world(2, [['A', 'B']], req, dev3, o)
                 # three deviations: the failure, a borrower answer, and a second failure on the other module
                 other = 'B' if block['m1'] == 'A' else 'A'
                 for fi in range(6):
@@ -314,14 +325,19 @@ class FileNamesVsModuleNames(object):
     case_timeout = 10
     name = 'file-names-that-are-other-modules-names'
     describe = ('3 names A, B, C over 2 sources: a file may hold its own module, ONLY a copy of the next module (file A holds module '
-                'B ...), its own module plus such a copy, or a module named unlike the file - sound or broken; every assignment with '
+                'B ...), its own module plus such a copy or a copy of the previous module, or a module named unlike the file - sound or '
+                'broken; no imports / a chain / A importing both others; every assignment with '
                 '<=2 of the 6 (source, name) slots off the default x every ordered request of 1-2 names x ignoreErrors: requested '
                 'names are FILE names (each file asked for is read), imported names are MODULE names')
 
-    KINDS = ['absent', 'healthy', 'only', 'plus', 'misnamed', 'misnamedbroken', 'dupsym']
+    KINDS = ['absent', 'healthy', 'only', 'plus', 'misnamed', 'misnamedbroken', 'dupsym',
+             # ... plus a copy of the PREVIOUS module (file C holds C and B: imports are looked up in alphabetical order, so B has
+             # been asked for - and found nowhere - by the time the file that carries it is read)
+             'plusprev']
     SLOTS = ['A0', 'B0', 'C0', 'A1', 'B1', 'C1']
     DEFAULT = {'A0': 'healthy', 'B0': 'healthy', 'C0': 'healthy', 'A1': 'absent', 'B1': 'absent', 'C1': 'absent'}
     NEXT = {'A': 'B', 'B': 'C', 'C': 'A'}
+    PREV = {'A': 'C', 'B': 'A', 'C': 'B'}
 
     def blocks(self, tier):
         out = [{'dev': []}]
@@ -354,8 +370,8 @@ class FileNamesVsModuleNames(object):
                     src[sl] = 'notfound'
                     continue
                 src[sl] = 'ok'
-                text[sl] = {'only': 'only' + self.NEXT[m], 'plus': 'plus' + self.NEXT[m]}.get(k, k)
-            for edges in ([], [['A', 'B']], [['A', 'B'], ['B', 'C']]):
+                text[sl] = {'only': 'only' + self.NEXT[m], 'plus': 'plus' + self.NEXT[m], 'plusprev': 'plus' + self.PREV[m]}.get(k, k)
+            for edges in ([], [['A', 'B']], [['A', 'B'], ['B', 'C']], [['A', 'B'], ['A', 'C']]):
                 for req in reqs:
                     for ie in (False, True):
                         w = {'n': 3, 'edges': edges, 'used': 0, 'req': req, 'nsrc': 2, 'src': dict(src), 'text': dict(text)}
@@ -377,10 +393,14 @@ class SeveralPerFile(object):
     prefix = 'C07'
     describe = ('2 sources x file names A, B; each (source, name) slot one of: absent, healthy, broken module + sound mate (2 orders), '
                 'broken + sound copy of the same module (2 orders), healthy + sound / broken copy of the OTHER module, duplicate '
-                'symbol, two sound modules; every assignment with <=2 slots off the default x A imports B or not (used or only '
+                'symbol, two sound modules, unparsable text, reader error, only a copy of the other module; every assignment with <=2 slots off the default (3 slots: without noDeps and borrowers in the quick tier) x A imports B or not (used or only '
                 'listed) x 4 requests x ignoreErrors x noDeps x no borrower / borrower holding A / holding B')
 
-    KINDS = ['absent', 'healthy', 'brokenfirst', 'brokenlast', 'copies-bs', 'copies-sb', 'plus', 'brokenplus', 'dupsym', 'twomods']
+    KINDS = ['absent', 'healthy', 'brokenfirst', 'brokenlast', 'copies-bs', 'copies-sb', 'plus', 'brokenplus', 'dupsym', 'twomods',
+             # the file of that name cannot be used at all: its text does not parse / the source fails on the name
+             'synerr', 'error',
+             # the file holds a sound copy of the OTHER module and nothing else
+             'only']
     SLOTS = ['A0', 'B0', 'A1', 'B1']
     DEFAULT = {'A0': 'healthy', 'B0': 'healthy', 'A1': 'absent', 'B1': 'absent'}
 
@@ -395,9 +415,16 @@ class SeveralPerFile(object):
                 if ka == self.DEFAULT[a]:
                     continue
                 out.append({'dev': [[a, ka], [b, None]]})   # the second slot's kinds are the cases of the block
+        # three slots off the default (a failure that belongs to a module read from ANOTHER file, a source failing on the name,
+        # a later source answering the name with other modules ...): quick without noDeps and borrowers
+        for (i, a), (j, b), (k, c) in itertools.combinations(list(enumerate(self.SLOTS)), 3):
+            for ka in self.KINDS:
+                for kb in self.KINDS:
+                    if ka != self.DEFAULT[a] and kb != self.DEFAULT[b]:
+                        out.append({'dev': [[a, ka], [b, kb], [c, None]], 'narrow': tier != 'thorough'})
         return out
 
-    def worlds(self, assign):
+    def worlds(self, assign, narrow=False):
         src, text = {}, {}
         for sl, k in assign.items():
             m, sidx = sl[0], int(sl[1])
@@ -405,13 +432,16 @@ class SeveralPerFile(object):
             if k == 'absent':
                 src[sl] = 'notfound'
                 continue
+            if k == 'error':
+                src[sl] = 'error'
+                continue
             src[sl] = 'ok'
-            text[sl] = {'plus': 'plus' + other, 'brokenplus': 'brokenplus' + other}.get(k, k)
+            text[sl] = {'plus': 'plus' + other, 'brokenplus': 'brokenplus' + other, 'only': 'only' + other}.get(k, k)
         for edges, used in (([], 0), ([['A', 'B']], 0), ([['A', 'B']], 1)):
             for req in (['A'], ['B'], ['A', 'B'], ['B', 'A']):
                 for ie in (False, True):
-                    for nd in (False, True):
-                        for bor in (None, 'A', 'B'):
+                    for nd in ((False,) if narrow else (False, True)):
+                        for bor in ((None,) if narrow else (None, 'A', 'B')):
                             w = {'n': 2, 'edges': edges, 'used': used, 'req': req, 'nsrc': 2, 'src': dict(src), 'text': dict(text),
                                  'variant': {'A0': 0, 'A1': 1, 'B0': 0, 'B1': 1}}
                             o = {}
@@ -437,9 +467,10 @@ class SeveralPerFile(object):
                 if k == self.DEFAULT[sl]:
                     continue
                 assign = dict(self.DEFAULT)
-                assign[dev[0][0]] = dev[0][1]
+                for sl0, k0 in dev[:-1]:
+                    assign[sl0] = k0
                 assign[sl] = k
-                for w in self.worlds(assign):
+                for w in self.worlds(assign, block.get('narrow', False)):
                     yield w
         else:
             assign = dict(self.DEFAULT)
@@ -608,6 +639,16 @@ ODD = [
     ('names-after-the-first-sub-identifier', 'myorg OBJECT IDENTIFIER ::= { iso 3 }\nmydod OBJECT IDENTIFIER ::= { myorg 6 }\n'
                                              'b OBJECT IDENTIFIER ::= { iso myorg mydod 9 }\n'),
 ]
+# name(number) - a legal OID sub-identifier - in every place where an object is named; also with names the generators use themselves
+PLACES = [('augments', OT % 'AUGMENTS { %s }'), ('index', OT % 'INDEX { %s }'), ('index-implied', OT % 'INDEX { IMPLIED %s }'),
+          ('index-second', OT % 'INDEX { x, %s }'),
+          ('mandatory-group', 'c MODULE-COMPLIANCE STATUS current DESCRIPTION "d" MODULE MANDATORY-GROUPS { %s } ::= { enterprises 2 }\n'),
+          ('group', 'c MODULE-COMPLIANCE STATUS current DESCRIPTION "d" MODULE GROUP %s DESCRIPTION "x" ::= { enterprises 2 }\n'),
+          ('compliance-object', 'c MODULE-COMPLIANCE STATUS current DESCRIPTION "d" MODULE OBJECT %s DESCRIPTION "x" ::= { enterprises 2 }\n'),
+          ('objects', 'g OBJECT-GROUP OBJECTS { %s } STATUS current DESCRIPTION "d" ::= { enterprises 3 }\n')]
+for _place, _tmpl in PLACES:
+    for _sp in ('x(1)', 'enumSpec(1)', 'row(1)', 'x(1) 2'):
+        ODD.append(('%s-spelled-%s' % (_place, _sp.replace(' ', '-')), _tmpl % _sp))
 CROSS = {
     'type-cycle-across-modules': {
         'A': 'A DEFINITIONS ::= BEGIN\nIMPORTS U FROM B OBJECT-TYPE, enterprises FROM SNMPv2-SMI;\nT ::= U\n'
@@ -623,8 +664,8 @@ class SemanticOddities(object):
     case_timeout = 60
     name = 'semantic-defects-in-a-mib'
     describe = ('texts the grammar accepts but that make no sense: OID definitions forming a cycle (1, 2, 3 nodes, across two '
-                'modules), an OID hung below a type, a number where an object name is expected (AUGMENTS / INDEX / MANDATORY-GROUPS / '
-                'GROUP / OBJECTS), type definitions forming a cycle (one module, two modules) under a DEFVAL, unknown labels, '
+                'modules), an OID hung below a type, a number or name(number) where an object name is expected (AUGMENTS / INDEX / '
+                'MANDATORY-GROUPS / GROUP / OBJECT / OBJECTS), type definitions forming a cycle (one module, two modules) under a DEFVAL, unknown labels, '
                 '1200-link alias and OID chains; both code generators, ignoreErrors on/off, a sound module B requested alongside: '
                 'compile() returns, A has one of the six statuses (a legal chain: compiled), B is compiled or unprocessed')
 
